@@ -72,7 +72,8 @@ def dynIndex (cs : List Head) (ops : List Op) : Index := ops.foldl Op.apply (bui
 /-- the same history applied to the reference database (no index; ISO 8.9 semantics). -/
 def dynRef (cs : List Head) (ops : List Op) : RefDb := ops.foldl RefDb.apply (refStart cs)
 
-theorem tracks_build (cs : List Head) : Tracks (build true cs) (refStart cs) := by
+/-- the freshly consulted predicate holds exactly the clauses `0..n-1` of the reference database. -/
+theorem C06_tracks_build (cs : List Head) : Tracks (build true cs) (refStart cs) := by
   refine ⟨rfl, ?_⟩
   show (build true cs).liveClauses = enumFrom' 0 cs
   unfold Index.liveClauses
@@ -95,7 +96,7 @@ theorem tracks_build (cs : List Head) : Tracks (build true cs) (refStart cs) := 
   exact this 0 cs _ (fun i hi => by simpa using hd_build true cs i hi)
 
 /-- the invariant holds after every history. -/
-theorem inv_dyn (cs : List Head) (ops : List Op) : Inv (dynIndex cs ops) :=
+theorem C06_inv_dyn (cs : List Head) (ops : List Op) : Inv (dynIndex cs ops) :=
   inv_foldl ops _ (inv_build true cs)
 
 /-- **exactly the unifiable live clauses, in database order** — dynamic code: after ANY history
@@ -107,31 +108,31 @@ theorem C06_dynamic_exact (cs : List Head) (ops : List Op) (call : Call) (wf : C
         (fun id => compatHead ((dynIndex cs ops).hd id) call)).map
         (fun id => (id, (dynIndex cs ops).hd id))
       = (dynRef cs ops).matching call :=
-  (tracks_foldl ops _ _ (inv_build true cs) (tracks_build cs)).answers (inv_dyn cs ops) call wf
+  (tracks_foldl ops _ _ (inv_build true cs) (C06_tracks_build cs)).answers (C06_inv_dyn cs ops) call wf
 
 /-- **order, nothing added, no duplicates** — dynamic code: what the index hands over is a
 sublist of the live clauses in database order (retracted clauses never appear), … -/
 theorem C06_dynamic_sublist (cs : List Head) (ops : List Op) (call : Call) :
     (select (dynIndex cs ops) call).Sublist (dynIndex cs ops).live :=
-  (inv_dyn cs ops).select_sublist call
+  (C06_inv_dyn cs ops).select_sublist call
 
 /-- … and that list has no duplicates. -/
 theorem C06_dynamic_nodup (cs : List Head) (ops : List Op) (call : Call) :
     (select (dynIndex cs ops) call).Nodup :=
-  List.Pairwise.sublist (C06_dynamic_sublist cs ops call) (inv_dyn cs ops).live_nodup
+  List.Pairwise.sublist (C06_dynamic_sublist cs ops call) (C06_inv_dyn cs ops).live_nodup
 
 /-- **nothing dropped** — dynamic code: every live clause whose head could unify is handed over. -/
 theorem C06_dynamic_complete (cs : List Head) (ops : List Op) (call : Call) (wf : CallWF call)
     (id : Nat) (hl : id ∈ (dynIndex cs ops).live)
     (hc : compatHead ((dynIndex cs ops).hd id) call = true) :
     id ∈ select (dynIndex cs ops) call :=
-  (inv_dyn cs ops).select_complete call wf id hl hc
+  (C06_inv_dyn cs ops).select_complete call wf id hl hc
 
 /-- the live clauses of the indexed predicate ARE the reference database (identifiers, heads,
 order), so the two theorems above speak about the right clause list. -/
 theorem C06_dynamic_tracks (cs : List Head) (ops : List Op) :
     (dynIndex cs ops).liveClauses = (dynRef cs ops).clauses :=
-  (tracks_foldl ops _ _ (inv_build true cs) (tracks_build cs)).clauses
+  (tracks_foldl ops _ _ (inv_build true cs) (C06_tracks_build cs)).clauses
 
 /-! ## walking a third-level line of a dynamic predicate (`DynamicIndexedChoice`) -/
 
